@@ -87,7 +87,7 @@ Section Exact.
     (forall es, Permutation (ord es) es) ->           (* a `range` over an edge map visits every entry once, in any order *)
     forall ops q k, NoDup (map (fun '(id, _, _, _) => id) ops) ->
       (length ops <= 2 * c_m c + 1)%nat -> c_mmax0 c = (2 * c_m c)%nat -> (1 <= c_m c)%nat ->
-      (length ops <= Nat.max (c_ef c) k)%nat -> c_extend c = false ->
+      (length ops <= Nat.max (c_ef c) k)%nat ->
       (N.of_nat (length ops) < two64)%N ->             (* the 64-bit item counter has not wrapped *)
       covers (insert_only ops) (beam dist ord c (insert_only ops) q k).
 End Exact.
